@@ -74,11 +74,13 @@ int main(int argc, char** argv) {
     // P2SH outputs whose one-byte redeem script reaches the stack through a small-number opcode of the scriptSig (OP_1NEGATE pushes 0x81 =
     // OP_RIGHT) or through an ordinary push (control): the listing must show the redeem script that will run
     {
-        struct B { const char* name; const char* sig; uint8_t redeem; };
-        for (B b : {B{"P2SH, redeem script OP_NOP pushed as data", "510161", 0x61}, B{"P2SH, redeem script 0x81 pushed by OP_1NEGATE", "02aabb514f", 0x81}}) {
+        struct B { const char* name; const char* sig; int redeem; };
+        // (redeem -1: the EMPTY redeem script, which the last operation of the scriptSig - OP_0 - leaves after a non-empty push)
+        for (B b : {B{"P2SH, redeem script OP_NOP pushed as data", "510161", 0x61}, B{"P2SH, redeem script 0x81 pushed by OP_1NEGATE", "02aabb514f", 0x81},
+                    B{"P2SH, empty redeem script pushed by OP_0 after a non-empty push", "015100", -1}, B{"P2SH, empty redeem script pushed by OP_0 after OP_1", "5100", -1}}) {
             gen::Shape sh; sh.nin = 2; sh.pos = 1; sh.fund_vout = 1; sh.nout = 2;
             gen::Spend S = gen::make_spend("p2pk", sh);
-            bytes h = hash160(bytes{b.redeem}); bytes spk{0xa9, 0x14}; spk.insert(spk.end(), h.begin(), h.end()); spk.push_back(0x87);
+            bytes h = hash160(b.redeem < 0 ? bytes{} : bytes{uint8_t(b.redeem)}); bytes spk{0xa9, 0x14}; spk.insert(spk.end(), h.begin(), h.end()); spk.push_back(0x87);
             S.fund.vout[1].spk = spk; S.tx.vin[1].prev_hash = txid(S.fund); S.tx.vin[1].script_sig = unhex(b.sig);
             emit(std::string("bare: ") + b.name, S.fund, S.tx, F_STANDARD);
         }
